@@ -397,7 +397,7 @@ func (c *Ctx) lookupOrder(ia *interpAnchors, f *ssa.Function) {
 	bad, cells, decided := c.lookupByEvaluation(ia, f, f != ia.load)
 	if decided {
 		c.check(len(bad) == 0, "CTL-LOOKUP", fname, "dictionary stack scanned from the top, first hit wins", f.Pos(),
-			fmt.Sprintf("%d cells evaluated: stack depth 1..4 × which dictionaries define the name", cells),
+			fmt.Sprintf("%d cells evaluated: stack depth 1..4 × which dictionaries define the name, with a value or with the nil object", cells),
 			"the name look-up does not return the definition in the topmost dictionary that has one: "+joinMax(bad, 3))
 		return
 	}
